@@ -186,6 +186,47 @@ Proof.
   inversion ND; subst. auto.
 Qed.
 
+(** [shift_remove]: the list without the entry of the key, order kept *)
+Lemma filter_keep_all {A} (f : A -> bool) l : (forall x, In x l -> f x = true) -> filter f l = l.
+Proof.
+  induction l as [|x l IH]; cbn; intros H; auto. rewrite (H x (or_introl eq_refl)). f_equal. apply IH. auto.
+Qed.
+
+Lemma shift_remove_filter {B} (l : list (name * B)) k :
+  NoDup (map fst l) -> shift_remove l k = filter (fun p => negb (N.eqb (fst p) k)) l.
+Proof.
+  induction l as [|[k' v] l IH]; cbn; intros ND; auto. inversion ND as [|? ? Hn ND']; subst.
+  destruct (N.eqb_spec k' k) as [->|Hne]; cbn.
+  - symmetry. apply filter_keep_all. intros [k2 v2] Hin. cbn. apply negb_true_iff. apply N.eqb_neq.
+    intros ->. apply Hn. apply (in_map fst) in Hin. exact Hin.
+  - now rewrite IH.
+Qed.
+
+Lemma shift_remove_In {B} (l : list (name * B)) k x : In x (shift_remove l k) -> In x l.
+Proof.
+  induction l as [|[k' v] l IH]; cbn; auto. destruct (N.eqb k' k); [auto|]. intros [H|H]; auto.
+Qed.
+
+Lemma shift_remove_In_iff {B} (l : list (name * B)) k x :
+  NoDup (map fst l) -> In x (shift_remove l k) <-> In x l /\ fst x <> k.
+Proof.
+  intros ND. rewrite shift_remove_filter by auto. rewrite filter_In, negb_true_iff, N.eqb_neq. reflexivity.
+Qed.
+
+Lemma shift_remove_NoDup {B} (l : list (name * B)) k :
+  NoDup (map fst l) -> NoDup (map fst (shift_remove l k)) /\ ~ In k (map fst (shift_remove l k)).
+Proof.
+  intros ND. split.
+  - rewrite shift_remove_filter by auto. now apply NoDup_map_filter.
+  - intros H. apply in_map_iff in H as [x [E H]]. apply shift_remove_In_iff in H as [_ H]; auto.
+Qed.
+
+Lemma shift_remove_absent {B} (l : list (name * B)) k : ~ In k (map fst l) -> shift_remove l k = l.
+Proof.
+  induction l as [|[k' v] l IH]; cbn; auto. intros H. destruct (N.eqb_spec k' k) as [->|Hne]; [tauto|].
+  rewrite IH; auto.
+Qed.
+
 (** * nodes *)
 Definition getn (ns : list (option node)) (n : nat) : option node :=
   match nth_error ns n with Some (Some nd) => Some nd | _ => None end.
